@@ -234,7 +234,23 @@ func RunC08(tier string) int {
 		if faultyB {
 			jk = safety
 		}
-		_, obsB, ok := step("B-build", e1.BuildOpts{}, jk, faultyB)
+		// machine B may invoke grog from a package directory below the workspace root: the
+		// remote namespace belongs to the workspace, not to the directory grog was started in
+		optsB := e1.BuildOpts{}
+		if r.Chance(1, 2) {
+			var pkgs []string
+			for _, t := range env.Spec.Targets {
+				if t.Pkg != "" {
+					pkgs = append(pkgs, t.Pkg)
+				}
+			}
+			if len(pkgs) > 0 {
+				optsB = e1.BuildOpts{Cwd: rng.Pick(r, pkgs), Patterns: []string{"//..."}}
+				env.Logf("B runs `grog build //...` from %s", optsB.Cwd)
+				run.Count("B_builds_started_from_a_package_directory", 1)
+			}
+		}
+		_, obsB, ok := step("B-build", optsB, jk, faultyB)
 		if !ok {
 			return
 		}
